@@ -424,6 +424,43 @@ pub fn run(cfg: &Cfg) {
         sink.note(&format!("systematic scope 2: {} scenarios = one material rule x two product rules over 16 rules (7 kinds x patterns *, foo; MATCH against materials / products of another step) x 2 artifact configurations (unchanged; modified + deleted + created)", scope2));
     }
 
+    // ---- systematic scope 3: two MATCH rules of one item against the SAME step - against its materials, its
+    //      products, or one of each, in either order, in one rule list or one in the material rules and one in
+    //      the product rules - where that step's materials and products differ (an artifact modified, one
+    //      created, one deleted by it): each rule is resolved against the set it names
+    {
+        let other_m: Vec<(String, u8)> = vec![("foo".into(), 1), ("bar".into(), 1), ("gone".into(), 1)];
+        let other_p: Vec<(String, u8)> = vec![("foo".into(), 2), ("bar".into(), 1), ("new".into(), 1)];
+        let its: Vec<(Vec<(String, u8)>, Vec<(String, u8)>)> = vec![
+            (other_p.clone(), other_p.clone()),
+            (other_m.clone(), other_m.clone()),
+            (other_m.clone(), other_p.clone()),
+            (vec![("foo".into(), 1), ("new".into(), 1)], vec![("foo".into(), 2), ("gone".into(), 1)]),
+        ];
+        let mut scope3 = 0u64;
+        for (im, ip) in &its {
+            for p1 in ["*", "foo", "new"] {
+                for p2 in ["*", "foo", "gone"] {
+                    for (k1, k2) in [(Artifact::Materials, Artifact::Products), (Artifact::Products, Artifact::Materials), (Artifact::Materials, Artifact::Materials), (Artifact::Products, Artifact::Products)] {
+                        let (a, b) = (m(p1, None, k1, None, "other"), m(p2, None, k2, None, "other"));
+                        let d = ArtifactRule::Disallow(vp("*"));
+                        for (mats, prods) in [
+                            (vec![a.clone(), b.clone(), d.clone()], vec![]),
+                            (vec![], vec![a.clone(), b.clone(), d.clone()]),
+                            (vec![a.clone()], vec![b.clone(), d.clone()]),
+                            (vec![a.clone(), ArtifactRule::Allow(vp("*"))], vec![b.clone(), d.clone()]),
+                        ] {
+                            let s = Scn { item: "it".into(), mats, prods, links: vec![("it".into(), im.clone(), ip.clone()), ("other".into(), other_m.clone(), other_p.clone())] };
+                            case(&mut sink, &mut model, &s, "scope3");
+                            scope3 += 1;
+                        }
+                    }
+                }
+            }
+        }
+        sink.note(&format!("systematic scope 3: {} scenarios = two MATCH rules against one step (materials / products in every combination and order; in one list, or one among the material and one among the product rules) whose materials and products differ, followed by DISALLOW *", scope3));
+    }
+
     // ---- random rule lists (length 0..5), normalized and not
     let n = if cfg.thorough { 60_000 } else { 6_000 };
     for i in 0..n {
